@@ -36,7 +36,7 @@ pub fn meta(tier: Tier) -> CheckMeta {
             "program x input combinations on which static and dynamic semantics (or the two root orders) disagree are skipped: the property's wording does not settle them".into(),
             "scc_value is per executor type: one sentinel per node kind".into(),
         ],
-        parts: vec![PartSpec { name: "native", nshards: 16, budget_s: tier.pick(300, 2400), env: vec![], program: None }],
+        parts: vec![PartSpec { name: "native", nshards: 16, budget_s: tier.pick(300, 2400), env: vec![], program: None, prepare: None, sanitizer: None }],
         must_be_nonzero: vec![
             ("epochs_with_cycle", "no cyclic epoch judged"),
             ("epochs_without_cycle", "no acyclic epoch judged"),
@@ -495,7 +495,7 @@ pub fn worker(ctx: &WorkerCtx) -> Report {
     hooks::install();
     let mut rep = Report::default();
     let base = Rng::new(ctx.seed).derive(600 + ctx.shard as u64);
-    let n: u64 = std::env::var("QV_C06_N").ok().and_then(|s| s.parse().ok()).unwrap_or(ctx.tier.pick(150, 4000));
+    let n: u64 = std::env::var("QV_C06_N").ok().and_then(|s| s.parse().ok()).unwrap_or(ctx.pick(3000, 60_000));
     let mut seen = HashSet::new();
     let mut cases: Vec<(Program, Vec<NodeId>, u64)> = Vec::new();
     if ctx.shard == 0 && std::env::var("QV_C06_CASE").is_err() {
